@@ -35,7 +35,12 @@ var badAnywhere = []string{"5", "2.5", `"nosuch"`, `"String"`, `""`, "(lambda (x
 // constraint (not a type name) may stand
 var badTopOnly = []string{`"int"`, "s:int", "s:string", `"any"`}
 
-var sites = []string{"type", "topcon", "topcon", "topcon", "of", "has-key", "may-have-key", "no-other-keys", "when-guard", "when-check", "not",
+// an unknown / misspelt user-data type name after "tagged-value" (or as the type
+// argument of the typedef form), and non-names in that slot
+var badSubs = []string{`"strng"`, `"integer"`, `"String"`, `"nosuch"`, `""`, `"str"`, `"sorted_map"`, `"boolean"`, `"Int"`, `"tagged"`, `"array "`, `"map"`,
+	"5", "(lambda (x) x)", "'nosuch", "()"}
+
+var sites = []string{"type", "tagged-sub", "tagged-sub", "tagged-sub", "topcon", "topcon", "topcon", "of", "has-key", "may-have-key", "no-other-keys", "when-guard", "when-check", "not",
 	"regexp-pattern", "regexp-nonstring"}
 
 func (g *sgen) goodRefs(max int) []rs.Ref {
@@ -101,8 +106,9 @@ func genMalformed() *rapid.Generator[MCase] {
 			pool = append(append([]string{}, badAnywhere...), badTopOnly...)
 		case "regexp-pattern":
 			pool = badPatPool
+		case "tagged-sub":
+			pool = badSubs
 		case "regexp-nonstring":
-			pool = []string{"5", "'sym", "()", "(vector \"a\")", "s:string-not", "(lambda (x) x)", "true"}
 			pool = []string{"5", "'sym", "()", "(vector \"a\")", "(lambda (x) x)", "true", "2.5"}
 		}
 		mc.Bad = rapid.SampledFrom(pool).Draw(t, "bad")
@@ -111,6 +117,14 @@ func genMalformed() *rapid.Generator[MCase] {
 		case "type":
 			s := g.nested("any", 0)
 			s.BadType = mc.Bad
+			curSchema = &s
+		case "tagged-sub":
+			// (s:make-validator "n" s:tagged-value <bad> cons...) or, for the
+			// top validator only, (s:make-validator tv <bad> cons...)
+			s := rs.Schema{Type: "tagged-value", BadSub: mc.Bad, Lit: rapid.Bool().Draw(t, "lit"), Typedef: rapid.IntRange(0, 2).Draw(t, "typedef") == 0}
+			for i := rapid.IntRange(0, 2).Draw(t, "ncons"); i > 0; i-- {
+				s.Cons = append(s.Cons, g.con("any", 0))
+			}
 			curSchema = &s
 		case "topcon":
 			s := g.nested("any", 0)
@@ -168,6 +182,10 @@ func genMalformed() *rapid.Generator[MCase] {
 			mc.Inputs = append(mc.Inputs, g.input(&good))
 		}
 		mc.Inputs = append(mc.Inputs, g.value(2, ""))
+		if site == "tagged-sub" {
+			// the values a tagged-value validator actually looks into
+			mc.Inputs = append(mc.Inputs, rs.Tagged("tv", g.scalar()), rs.Map(rs.Entry{Key: "a", V: rs.Tagged("tv", rs.Str("abc"))}, rs.Entry{Key: "b", V: rs.Int(1)}))
+		}
 		return mc
 	})
 }
